@@ -820,6 +820,49 @@ def _emit_fn(g, source, a, blocks, vacuity, probe_insert=None):
             at = brace + 1 if "loop_start" in ia else _mc2(ltoks, brace)
             body = "".join(t.text for t in ltoks[:at]) + txt + "".join(t.text for t in ltoks[at:])
             continue
+        if "arms_of" in ia:
+            # the ghost text is placed at the start of EVERY `PAT => {` arm of the (first) match whose header is the pattern
+            from rsx import match_close as _mc9
+            tk = tokenize(body)
+            sg = [k for k, t in enumerate(tk) if t.kind not in ("ws", "comment")]
+            pat = [t.text for t in tokenize(ia["arms_of"]) if t.kind not in ("ws", "comment")]
+            hit = None
+            for q in range(len(sg) - len(pat)):
+                if all(tk[sg[q + b]].text == pat[b] for b in range(len(pat))):
+                    hit = q + len(pat); break
+            if hit is not None:
+                # the pattern is a PREFIX of the scrutinee: skip to the `{` that opens the arms
+                kk = sg[hit]
+                while kk < len(tk) and tk[kk].text != "{":
+                    kk = _mc9(tk, kk) + 1 if tk[kk].text in ("(", "[") else kk + 1
+                hit = kk if kk < len(tk) else None
+            if hit is None:
+                raise ExtractError(f"anchor lost: match `{ia['arms_of']}` in {f.name}")
+            mo = hit; mc = _mc9(tk, mo)
+            ins_at = []
+            k = mo + 1
+            depth = 0
+            while k < mc:
+                t = tk[k]
+                if t.text in ("(", "[", "{"):
+                    if t.text == "{":
+                        # an arm block if the previous significant token is `=>`
+                        pk = k - 1
+                        while tk[pk].kind in ("ws", "comment"): pk -= 1
+                        if tk[pk].text == "=>":
+                            ins_at.append(k + 1)
+                    k = _mc9(tk, k) + 1; continue
+                k += 1
+            if not ins_at:
+                raise ExtractError(f"anchor lost: no block arms in match `{ia['arms_of']}` of {f.name}")
+            outp = []
+            for k, t in enumerate(tk):
+                if k in ins_at:
+                    outp.append("\n" + txt.rstrip() + "\n")
+                outp.append(t.text)
+            body = "".join(outp)
+            rules.append(("R6", f"arms_of: ghost text placed at the start of {len(ins_at)} arm(s) of `{ia['arms_of']}`"))
+            continue
         if "fn_exit" in ia:
             # an obligation on EVERY exit of a unit-returning function: the ghost text is placed at the end of the body and
             # in front of every `return;` (wrapped: `{ GHOST return; }`) — an early return must meet it as well
@@ -863,6 +906,8 @@ def _emit_fn(g, source, a, blocks, vacuity, probe_insert=None):
                 body = insert_after_pattern(body, ia["arm_last"], txt, f.name, nth=nth, arm_last=True)
             elif "arm_end" in ia:
                 body = insert_after_pattern(body, ia["arm_end"], txt, f.name, nth=nth, arm_end=True)
+            elif "arm_start" in ia:
+                body = insert_after_pattern(body, ia["arm_start"], txt, f.name, nth=nth, arm_start=True)
             else:
                 body = insert_after_pattern(body, ia["before"], txt, f.name, before=True, nth=nth)
         except ExtractError:
